@@ -90,6 +90,30 @@ add('C09', 'runtime monitoring: error responses parsed with json / expat / html.
     'DESIGN.md section 3, C09')
 
 
+add('C10', 'runtime monitoring: differential execution of a nested application tree against an independently flattened declaration, '
+           'plus absolute oracles (routing table, resource precedence, middleware order, renderer, error handler)',
+    'Random trees of depth <=3 are built twice with the real clastic - nested through SubApplication and flat from the harness\'s own '
+    'flattening (prefixing, outer-first middleware merge with unique types, resource merge, effective slash mode, resolved renderer) - '
+    'and 14 requests per tree (44 000 per quick run) must agree in status, body, Location, error-handler stamp and the full trace of '
+    'middleware/endpoint calls with injected values; what the statement fixes independently of the flat form is asserted directly, '
+    'because a defect that bends both constructions alike is invisible to the differential part.',
+    'DESIGN.md section 3, C10')
+add('C11', 'runtime monitoring: model-based histories; every live application is compared with its model routing table, probed and '
+           'fingerprinted after every operation',
+    'Histories of construct / add route, tuple, sub-application at None, in-range, negative and overshooting indices / failing adds '
+    '(unresolved dependency, conflict, bad pattern, bad middleware, k-th route of an embedded application) / embedding of live '
+    'applications / re-binding one Route into several applications; after each step all live applications must list exactly the '
+    'model\'s patterns, answer probe requests as the reference dispatcher predicts (incl. which middlewares stamped the response) and '
+    'leave unbound Routes and embedded applications untouched; a failing add must change nothing.',
+    'DESIGN.md section 3, C11')
+add('C12', 'runtime monitoring under a deterministic thread scheduler (sys.settrace turn token at clastic line granularity): all '
+           'single-preemption schedules of request pairs, seeded random multi-preemption schedules, free-running stress',
+    'Per quick run: all 15 000 single-preemption schedules of the 81 ordered pairs of nine request kinds, 2 000 random schedules of 3-4 '
+    'threads, and 24 000 free-running requests on 4x4 threads with a 1 us switch interval; each response must equal the response of '
+    'the same request served alone and request ids must be unique in the process. Thorough adds opcode granularity inside application.py.',
+    'DESIGN.md section 3, C12')
+
+
 def main():
     present = sorted(p for p in CHECKS if os.path.exists(os.path.join(HERE, 'vt', 'checks', p + '.py')))
     checks = []
